@@ -150,6 +150,11 @@ func buildVariant(work, variant string, race bool) (string, map[string]any) {
 	if race {
 		args = append(args, "-race")
 	}
+	if os.Getenv("VERIF_COVER") != "" && variant == "plain" {
+		// development aid (tools/cover.sh): block coverage of the repository's packages, written
+		// to $GOCOVERDIR by every worker that exits normally
+		args = append(args, "-cover", "-coverpkg="+coverPkgs())
+	}
 	args = append(args, "./cmd/hmsworker")
 	out, err := run(verifRoot, "go", args...)
 	if err != nil {
@@ -162,6 +167,16 @@ func buildVariant(work, variant string, race bool) (string, map[string]any) {
 		die(2, "build of the harness against %s failed (variant %s):\n%s", repoRoot, variant, strings.Join(lines, "\n"))
 	}
 	return bin, info
+}
+
+// coverPkgs: the repository packages without added overlay files (the cover tool does not
+// read overlays).
+func coverPkgs() string {
+	var ps []string
+	for _, p := range []string{"", "/analyzer", "/analyzer/ast", "/compiler", "/interpreter", "/interpreter/value", "/runtime", "/runtime/value", "/lexer", "/parser", "/parser/ast", "/diagnostic", "/errors", "/optimizer"} {
+		ps = append(ps, "github.com/smarthome-go/homescript/v3/homescript"+p)
+	}
+	return strings.Join(ps, ",")
 }
 
 // addExtraOverlay adds files from shim/extra (files added to repository packages: private
